@@ -121,6 +121,8 @@ pub struct FileView {
     /// (name, position)
     pub consts: Vec<(String, usize)>,
     pub n_items: usize,
+    /// every doc string anywhere in the file (items, fields, variants, methods, inner docs)
+    pub all_docs: Vec<String>,
 }
 
 struct AbiCollector {
@@ -130,6 +132,20 @@ impl<'ast> Visit<'ast> for AbiCollector {
     fn visit_type_bare_fn(&mut self, f: &'ast syn::TypeBareFn) {
         self.abis.push(f.abi.as_ref().map(|a| a.name.as_ref().map(|n| n.value()).unwrap_or_else(|| "C".into())));
         syn::visit::visit_type_bare_fn(self, f);
+    }
+}
+struct DocCollector {
+    docs: Vec<String>,
+}
+impl<'ast> Visit<'ast> for DocCollector {
+    fn visit_attribute(&mut self, at: &'ast syn::Attribute) {
+        if at.path().is_ident("doc") {
+            if let syn::Meta::NameValue(nv) = &at.meta {
+                if let syn::Expr::Lit(syn::ExprLit { lit: syn::Lit::Str(s), .. }) = &nv.value {
+                    self.docs.push(s.value());
+                }
+            }
+        }
     }
 }
 struct IntCollector {
@@ -187,6 +203,9 @@ pub fn view(src: &str) -> Result<FileView, String> {
         n_items: file.items.len(),
         ..Default::default()
     };
+    let mut dc = DocCollector { docs: vec![] };
+    dc.visit_file(&file);
+    v.all_docs = dc.docs;
     for (pos, item) in file.items.iter().enumerate() {
         match item {
             syn::Item::Struct(s) => {
